@@ -85,15 +85,19 @@ theorem dequeue_limit_matches_source (cands : List Proposal) (n : Nat) :
 
 /-! ### decision trees: the order of the tests, the nesting, the arms and the exits are the source's -/
 
-/-- `Enqueue`, body of the loop over the new proposals: the model skips a proposal exactly when the regenerated
-tree takes exit 1 (`continue`) — i.e. the record is looked up first, the block comparison is tested only for a
-queued work id, and everything else falls through to the insertion. -/
+/-- `Enqueue`, body of the loop over the new proposals: the record is looked up first, the block comparison is
+tested only for a queued work id; exit 1 is a `continue` (the proposal is skipped), every other path reaches the
+insertion `pq.records[p.WorkID] = …` (exit 2, a marked effect) — and the model does exactly that. -/
 theorem enqueue1_tree_matches_source (now : Nat) (q : Queue) (p : Proposal) :
     enqueue1 now q p =
       (let queued := (q.get p.workID).isSome
        let queuedBlock := match q.get p.workID with | some ex => ex.proposal.trigger.blockNumber | none => 0
-       if Gen.Src.c11EnqueueTree queued queuedBlock p.trigger.blockNumber = 1 then q
-       else q.set p.workID { proposal := p, removed := false, createdAt := now }) := by
+       match Gen.Src.c11EnqueueTree queued queuedBlock p.trigger.blockNumber with
+       | 1 => q
+       | 2 => q.set p.workID { proposal := p, removed := false, createdAt := now }
+       | _ => q) ∧
+    Gen.Src.c11EnqueueTreeKind 1 = 2 ∧ Gen.Src.c11EnqueueTreeKind 2 = 4 := by
+  refine ⟨?_, rfl, rfl⟩
   unfold enqueue1
   cases hg : q.get p.workID with
   | none => simp [Gen.Src.c11EnqueueTree]
@@ -102,26 +106,33 @@ theorem enqueue1_tree_matches_source (now : Nat) (q : Queue) (p : Proposal) :
       simp [Gen.Src.c11EnqueueTree, hge]
 
 /-- `Dequeue`, body of the first loop (over the records): expiry is tested first (exit 1: delete and `continue`),
-then the dequeued flag (exit 2: `continue`); only then the type decides whether the record becomes a candidate. -/
+then the dequeued flag (exit 2: `continue`), then the type: a match reaches `proposals = append(…)` (exit 3),
+anything else falls off the end of the body (exit 0).  Exits 1 and 2 are `continue`s, not `break`s or `return`s. -/
 theorem dequeueScan_tree_matches_source (tg : String → Nat) (t now : Nat) (k : String) (ks : List String) (q : Queue)
     (acc : List Proposal) (r : QRec) (hg : q.get k = some r) :
     dequeueScan tg t now (k :: ks) q acc =
-      match Gen.Src.c11DequeueScanTree (qExpired now r) r.removed (tg r.proposal.upkeepID) t with
-      | 1 => dequeueScan tg t now ks (q.del r.proposal.workID) acc
-      | 2 => dequeueScan tg t now ks q acc
-      | _ => if tg r.proposal.upkeepID = t then dequeueScan tg t now ks q (acc ++ [r.proposal])
-             else dequeueScan tg t now ks q acc := by
+      (match Gen.Src.c11DequeueScanTree (qExpired now r) r.removed (tg r.proposal.upkeepID) t with
+       | 1 => dequeueScan tg t now ks (q.del r.proposal.workID) acc
+       | 2 => dequeueScan tg t now ks q acc
+       | 3 => dequeueScan tg t now ks q (acc ++ [r.proposal])
+       | _ => dequeueScan tg t now ks q acc) ∧
+    Gen.Src.c11DequeueScanTreeKind 1 = 2 ∧ Gen.Src.c11DequeueScanTreeKind 2 = 2 ∧
+    Gen.Src.c11DequeueScanTreeKind 3 = 4 := by
+  refine ⟨?_, rfl, rfl, rfl⟩
   rw [dequeueScan, hg]
   simp only [Gen.Src.c11DequeueScanTree]
   cases he : qExpired now r <;> cases hr : r.removed <;> by_cases ht : tg r.proposal.upkeepID = t <;> simp [ht]
 
-/-- `ViewProposals`: the switch on the upkeep type — log recovery first, conditional second, anything else `nil` -/
+/-- `ViewProposals`: the switch on the upkeep type — log recovery first, conditional second, anything else `nil`;
+all three exits are `return`s -/
 theorem viewProposals_tree_matches_source (t now : Nat) (s : MStore) :
     s.viewProposals t now =
-      match Gen.Src.c11ViewProposalsTree t with
-      | 1 => ((s.log.view Gen.logRecoveryExpiryNs now).1, { s with log := (s.log.view Gen.logRecoveryExpiryNs now).2 })
-      | 2 => ((s.cond.view Gen.conditionalExpiryNs now).1, { s with cond := (s.cond.view Gen.conditionalExpiryNs now).2 })
-      | _ => ([], s) := by
+      (match Gen.Src.c11ViewProposalsTree t with
+       | 1 => ((s.log.view Gen.logRecoveryExpiryNs now).1, { s with log := (s.log.view Gen.logRecoveryExpiryNs now).2 })
+       | 2 => ((s.cond.view Gen.conditionalExpiryNs now).1, { s with cond := (s.cond.view Gen.conditionalExpiryNs now).2 })
+       | _ => ([], s)) ∧
+    (∀ e, e = 1 ∨ e = 2 ∨ e = 3 → Gen.Src.c11ViewProposalsTreeKind e = 1) := by
+  refine ⟨?_, by rintro e (rfl | rfl | rfl) <;> rfl⟩
   unfold MStore.viewProposals
   simp only [Gen.Src.c11ViewProposalsTree, logT, condT]
   by_cases h1 : t = 1
@@ -130,15 +141,97 @@ theorem viewProposals_tree_matches_source (t now : Nat) (s : MStore) :
     · simp [h0]
     · simp [h1, h0]
 
-/-- `coordinatedProposalsTick.Value`: with a queue, what a tick hands on is decided by the error tests alone — an
-error (exits 2, 3: `return nil, err`) hands on nothing, otherwise the built payloads are returned at the last
-statement (exit 4); there is no other way out of the function.  (The translator gives both `err != nil` tests one
-parameter; the model's tick has one failure, the payload builder's.) -/
+/-- `coordinatedProposalsTick.Value`: a failed `Dequeue` (exit 2) and a failed `BuildPayloads` (exit 3) are tested
+in that order, each with its own `err`; both return `(nil, err)` — no payloads, an error —; only the last statement
+(exit 4) returns payloads, and it returns no error; without a queue (exit 1) the tick returns `(nil, nil)`.  The
+model's tick (the real queue never fails; `ok` = the builder did not fail) hands on its dequeued batch exactly at
+the exit that returns payloads. -/
 theorem tick_tree_matches_source (tg : String → Nat) (st : St) (t n : Nat) (order : List String) (ok : Bool) :
     stepOut tg st (.tick t n order ok) =
-      match Gen.Src.c11TickValueTree false (!ok) with
-      | 4 => some (dequeue tg t n st.now order st.q).1
-      | _ => some [] := by
-  cases ok <;> simp [stepOut, Gen.Src.c11TickValueTree]
+      (if Gen.Src.c11TickValueTreeNil1 (Gen.Src.c11TickValueTree false false (!ok)) then some []
+       else some (dequeue tg t n st.now order st.q).1) ∧
+    -- which exits carry what: (payloads nil?, error nil?)
+    (Gen.Src.c11TickValueTreeNil1 1, Gen.Src.c11TickValueTreeNil2 1) = (true, true) ∧
+    (Gen.Src.c11TickValueTreeNil1 2, Gen.Src.c11TickValueTreeNil2 2) = (true, false) ∧
+    (Gen.Src.c11TickValueTreeNil1 3, Gen.Src.c11TickValueTreeNil2 3) = (true, false) ∧
+    (Gen.Src.c11TickValueTreeNil1 4, Gen.Src.c11TickValueTreeNil2 4) = (false, true) ∧
+    (∀ dq bf, Gen.Src.c11TickValueTree false dq bf = if dq then 2 else if bf then 3 else 4) ∧
+    (∀ e, e = 1 ∨ e = 2 ∨ e = 3 ∨ e = 4 → Gen.Src.c11TickValueTreeKind e = 1) := by
+  refine ⟨?_, rfl, rfl, rfl, rfl, ?_, by rintro e (rfl | rfl | rfl | rfl) <;> rfl⟩
+  · cases ok <;> simp [stepOut, Gen.Src.c11TickValueTree, Gen.Src.c11TickValueTreeNil1]
+  · intro dq bf; cases dq <;> cases bf <;> simp [Gen.Src.c11TickValueTree]
+
+/-! Trees with ONE marked statement each: exit 1 = "this very statement is reached" (marks are numbered by
+position, so only a single mark identifies the statement by its text). -/
+
+/-- `orderedMap.Add`: the key is appended to the key slice exactly when it is absent from the value map; the
+value is stored either way -/
+theorem add_tree_matches_source (m : OMap) (key : String) (v : Rec) :
+    m.add key v =
+      (match Gen.Src.c11AddAppendsKeyTree (m.values.get key).isSome with
+       | 1 => { keys := m.keys ++ [key], values := m.values.set key v }
+       | _ => { m with values := m.values.set key v }) ∧
+    Gen.Src.c11AddAppendsKeyTreeKind 1 = 4 := by
+  refine ⟨?_, rfl⟩
+  unfold OMap.add
+  cases h : (m.values.get key).isSome <;> simp [Gen.Src.c11AddAppendsKeyTree]
+
+/-- the log view loop's body: the `Delete` is reached exactly for an expired record, the `append` to the result
+exactly for an unexpired one — never both, never neither -/
+theorem viewLoop_tree_matches_source_log (now : Nat) (key : String) (ks : List String) (m : OMap) (res : List Proposal)
+    (r : Rec) (hg : m.get key = some r) :
+    viewLoop Gen.logRecoveryExpiryNs now (key :: ks) m res =
+      (let e := recExpired Gen.logRecoveryExpiryNs now r
+       let m' := if Gen.Src.c11ViewLogPurgeTree e = 1 then m.delete key else m
+       let res' := if Gen.Src.c11ViewLogReturnTree e = 1 then res ++ [r.proposal] else res
+       viewLoop Gen.logRecoveryExpiryNs now ks m' res') := by
+  rw [viewLoop, hg]
+  cases h : recExpired Gen.logRecoveryExpiryNs now r <;>
+    simp [Gen.Src.c11ViewLogPurgeTree, Gen.Src.c11ViewLogReturnTree, h]
+
+/-- … and the conditional view loop's body -/
+theorem viewLoop_tree_matches_source_cond (now : Nat) (key : String) (ks : List String) (m : OMap) (res : List Proposal)
+    (r : Rec) (hg : m.get key = some r) :
+    viewLoop Gen.conditionalExpiryNs now (key :: ks) m res =
+      (let e := recExpired Gen.conditionalExpiryNs now r
+       let m' := if Gen.Src.c11ViewCondPurgeTree e = 1 then m.delete key else m
+       let res' := if Gen.Src.c11ViewCondReturnTree e = 1 then res ++ [r.proposal] else res
+       viewLoop Gen.conditionalExpiryNs now ks m' res') := by
+  rw [viewLoop, hg]
+  cases h : recExpired Gen.conditionalExpiryNs now r <;>
+    simp [Gen.Src.c11ViewCondPurgeTree, Gen.Src.c11ViewCondReturnTree, h]
+
+/-- `AddProposals`, per proposal: `addLogRecoveryProposal` is reached exactly for the log type,
+`addConditionalProposal` exactly for the conditional type, nothing for any other type -/
+theorem add1_tree_matches_source (tg : String → Nat) (now : Nat) (s : MStore) (p : Proposal) :
+    MStore.add1 tg now s p =
+      (if Gen.Src.c11AddsLogTree (tg p.upkeepID) = 1 then
+         { s with log := s.log.add p.workID { createdAt := now, proposal := p } }
+       else if Gen.Src.c11AddsCondTree (tg p.upkeepID) = 1 then
+         { s with cond := s.cond.add p.workID { createdAt := now, proposal := p } }
+       else s) ∧
+    ¬ (Gen.Src.c11AddsLogTree (tg p.upkeepID) = 1 ∧ Gen.Src.c11AddsCondTree (tg p.upkeepID) = 1) := by
+  unfold MStore.add1
+  simp only [Gen.Src.c11AddsLogTree, Gen.Src.c11AddsCondTree, logT, condT]
+  by_cases h1 : tg p.upkeepID = 1
+  · simp [h1]
+  · by_cases h0 : tg p.upkeepID = 0
+    · simp [h0]
+    · simp [h1, h0]
+
+/-- `RemoveProposals`, per proposal: likewise for the two removals -/
+theorem remove1_tree_matches_source (tg : String → Nat) (s : MStore) (p : Proposal) :
+    MStore.remove1 tg s p =
+      (if Gen.Src.c11RemovesLogTree (tg p.upkeepID) = 1 then { s with log := s.log.delete p.workID }
+       else if Gen.Src.c11RemovesCondTree (tg p.upkeepID) = 1 then { s with cond := s.cond.delete p.workID }
+       else s) ∧
+    ¬ (Gen.Src.c11RemovesLogTree (tg p.upkeepID) = 1 ∧ Gen.Src.c11RemovesCondTree (tg p.upkeepID) = 1) := by
+  unfold MStore.remove1
+  simp only [Gen.Src.c11RemovesLogTree, Gen.Src.c11RemovesCondTree, logT, condT]
+  by_cases h1 : tg p.upkeepID = 1
+  · simp [h1]
+  · by_cases h0 : tg p.upkeepID = 0
+    · simp [h0]
+    · simp [h1, h0]
 
 end AutoVerif.C11
